@@ -291,6 +291,16 @@ func runCheck(prop, repo, verif, tier, work string, tmo int, verbose bool, updat
 			samples = append(samples, map[string]any{"name": o.Name, "status": o.Status, "paths": o.Paths, "solver": o.Solver, "seconds": round3(o.Seconds), "smt_bytes": o.SMTBytes})
 		}
 	}
+	// the slowest obligations (stability audit: anything near the per-query timeout is fragile)
+	bySec := append([]*ObligSummary(nil), all...)
+	sort.SliceStable(bySec, func(i, j int) bool { return bySec[i].MaxQuery > bySec[j].MaxQuery })
+	var slowest []any
+	for i, o := range bySec {
+		if i >= 8 {
+			break
+		}
+		slowest = append(slowest, map[string]any{"name": o.Name, "seconds": round3(o.Seconds), "max_query_seconds": round3(o.MaxQuery), "solver": o.Solver, "paths": o.Paths})
+	}
 	var tb []string
 	for n := range trusted {
 		tb = append(tb, n)
@@ -321,6 +331,7 @@ func runCheck(prop, repo, verif, tier, work string, tmo int, verbose bool, updat
 			"trusted_base":             tb,
 			"functions_under_contract": funcs,
 			"samples":                  samples,
+			"slowest":                  slowest,
 			"solver_seconds_total":     round3(solverTime),
 			"vacuity":                  map[string]any{"cover_queries": nCover, "cover_sat": nCoverOK},
 			"known_findings_hit":       knownHit,
